@@ -31,7 +31,18 @@ FLOORS = {"nontrivial": 0.4}
 
 
 def budget(tier):
-    return {"examples": 10 if tier == "quick" else 40, "shards": 1 if tier == "quick" else 16}
+    return {"examples": 10 if tier == "quick" else 40, "shards": 1 if tier == "quick" else 16,
+            "examples2": 200 if tier == "quick" else 100}
+
+
+# second stage: "what a reader has once been able to read stays readable and unchanged" across recording sessions: reads between
+# and during later sessions of the same channel (files of earlier sessions never change, their samples keep their values)
+SESSION_KEEP = ("finalized-file-changed", "finalized-file-disappeared", "union-read-wrong-value", "union-read-missing-sample", "union-read-exception")
+
+
+def strategy2(tier):
+    from checks import c11
+    return c11.session_strategy(tier)
 
 
 @st.composite
@@ -260,6 +271,9 @@ def run_free(case, res, fail):
 
 
 def run_case(case):
+    if case.get("kind") == "sessions":
+        from checks import c11
+        return c11.run_sessions(case, SESSION_KEEP)
     res = Result()
     seen = set()
 
@@ -280,6 +294,10 @@ shrink_candidates = c02.shrink_candidates
 
 
 def _shrink(case):
+    if case.get("kind") == "sessions":
+        from checks import c11
+        yield from c11.session_shrink(case)
+        return
     for c in c02.shrink_candidates(dict(case, kills=[0])):
         c = dict(c)
         c.pop("kills", None)
